@@ -61,13 +61,27 @@ Definition C11_no_skip_statement (reload : bool) : Prop :=
         d = seq (r_pos r) (length d) /\ last (map snd rounds) (r_pos r) = r_pos r + length d
     end.
 
-Example C11_code_reloads : code_reloads_count = true.
-Proof. reflexivity. Qed.
+(* the two readers of the code: the journal iterator of the dependency re-reads the count, /repo's own iterator
+   (RANGE queries) keeps the position of its end-of-data decision *)
+Example C11_code_reloads : code_reloads_count = true /\ code_reloads_count_range = false.
+Proof. split; reflexivity. Qed.
 
-(* Refuted for the code: the end-of-data decision is made on one look at the count (3), the position is taken from a
-   later look (5) -- a flush of two records fell in between; records 3 and 4 are never delivered, and the
-   waiter, comparing position 5 with count 5, sleeps. *)
-Theorem C11_no_skip_refuted : ~ C11_no_skip_statement true.
+(* Proved for /repo's own journal iterator (pkg/partition: queries with RANGE): the position left at EOF is the one
+   the end-of-data decision was made at, whatever is flushed between any two of its looks *)
+Theorem C11_no_skip_range : C11_no_skip_statement code_reloads_count_range.
+Proof.
+  intros n fuel r tr b Hc Hm Hp.
+  pose proof (read_rounds_fixed n fuel r tr b Hc Hm Hp) as H. change code_reloads_count_range with false.
+  destruct (read_rounds n fuel false r tr) as [[rounds trf] ok]. destruct H as [H1 H2].
+  intros Hok. split; [exact H1|]. exact (H2 Hok _ eq_refl).
+Qed.
+Print Assumptions C11_no_skip_range.
+
+(* Refuted for the journal iterator of the dependency (github.com/logrange/range, not part of /repo; it is what queries
+   without RANGE and the pipe workers read with): the end-of-data decision is made on one look at the count (3), the
+   position is taken from a later look (5) -- a flush of two records fell in between; records 3 and 4 are never
+   delivered, and the waiter, comparing position 5 with count 5, sleeps. *)
+Theorem C11_no_skip_dependency_refuted : ~ C11_no_skip_statement code_reloads_count.
 Proof.
   intros H.
   specialize (H 2 5 {| r_pos := 3; r_open := false; r_cached := false |}
@@ -75,17 +89,7 @@ Proof.
   cbn in H. assert (Hm : 3 <= 3 /\ 3 <= 3 /\ 3 <= 5 /\ 5 <= 5 /\ 5 <= 5 /\ 5 <= 5 /\ True) by (repeat split; lia).
   specialize (H Hm (le_n 3) eq_refl). destruct H as [_ H]. discriminate H.
 Qed.
-Print Assumptions C11_no_skip_refuted.
-
-(* Proved for the repair (the position left at EOF is the one the decision was made at) *)
-Theorem C11_no_skip_partial : C11_no_skip_statement false.
-Proof.
-  intros n fuel r tr b Hc Hm Hp.
-  pose proof (read_rounds_fixed n fuel r tr b Hc Hm Hp) as H.
-  destruct (read_rounds n fuel false r tr) as [[rounds trf] ok]. destruct H as [H1 H2].
-  intros Hok. split; [exact H1|]. exact (H2 Hok _ eq_refl).
-Qed.
-Print Assumptions C11_no_skip_partial.
+Print Assumptions C11_no_skip_dependency_refuted.
 
 (* Pipe workers: in every reachable state of the pipe protocol (model/PipeSync.v, every schedule, any notification
    order), a source without a charged worker is not behind its last notification: the worker that finishes
@@ -111,11 +115,12 @@ Example C11_nonvacuous :
   wp (wrun (winit 4) [LStart 4; LFlushTo 6; LTokLoad 0; LWaiter; LWaiter]) = WRet.
 Proof. vm_compute. repeat split. Qed.
 
-(* the repaired reader on the refutation's trace delivers 3 and 4 in the second round *)
+(* on the refutation's counts the reader that keeps its position delivers 3 and 4 in the second round; the one that
+   re-reads the count never does *)
 Example C11_reader_demo :
-  fst (fst (read_rounds 2 5 false {| r_pos := 3; r_open := false; r_cached := false |}
-              [(OS, 3); (OG, 3); (OC, 5); (OS, 5); (OG, 5); (OG, 5); (OG, 5); (ON, 5); (OG, 5); (OG, 5); (OG, 5); (ON, 5); (OG, 5); (OC, 5)])) = [([], 3); ([3; 4], 5)] /\
-  fst (fst (read_rounds 2 5 true {| r_pos := 3; r_open := false; r_cached := false |}
+  fst (fst (read_rounds 2 5 code_reloads_count_range {| r_pos := 3; r_open := false; r_cached := false |}
+              [(OS, 3); (OG, 3); (OC, 5); (OS, 5); (OG, 5); (OG, 5); (ON, 5); (OG, 5); (OG, 5); (ON, 5); (OG, 5); (OC, 5)])) = [([], 3); ([3; 4], 5)] /\
+  fst (fst (read_rounds 2 5 code_reloads_count {| r_pos := 3; r_open := false; r_cached := false |}
               [(OS, 3); (OG, 3); (OC, 5); (OS, 5); (OG, 5); (OC, 5)])) = [([], 5); ([], 5)].
 Proof. vm_compute. split; reflexivity. Qed.
 
